@@ -10,7 +10,7 @@ Lemma recycle_msgs_exact cn :
   snd (fst (recycle MFast cn)) = []
   /\ snd (fst (recycle MVerified cn)) = [MQuery 0]
   /\ snd (fst (recycle MClean cn)) = [MQuery 1]
-  /\ forall k, snd (fst (recycle (MCustom k) cn)) = [MQuery (10 + k)].
+  /\ forall k, snd (fst (recycle (MCustom k) cn)) = [MQuery (custom_sql k)].
 Proof.
   intros H. unfold recycle. rewrite H. cbn [sql_of].
   repeat split; try intros k; destruct (armq cn); reflexivity.
@@ -181,6 +181,9 @@ Proof.
     inversion Hs; subst. sp. rewrite updl_length. unfold owned. sp. split; [auto | lia].
   - destruct (usable s x); [|discriminate]. destruct (prepare2 (getc s x) k) as [[[cn ms] r1] r2].
     inversion Hs; subst. sp. rewrite updl_length. unfold owned. sp. split; [auto | lia].
+  - destruct (usable s x); [|discriminate]. destruct (via_ready (getc s x)); cbn [andb] in Hs; [|discriminate].
+    destruct (prepare1 (getc s x) k) as [[cn ms] res].
+    inversion Hs; subst. sp. rewrite updl_length. unfold owned. sp. split; [auto | lia].
   - destruct (usable s x); inversion Hs; subst. sp. rewrite updl_length. unfold owned. sp. split; [auto | lia].
   - destruct (usable s x); inversion Hs; subst. sp. rewrite updl_length. unfold owned. sp. split; [auto | lia].
   - inversion Hs; subst. unfold reg_apply, owned. sp. rewrite map_reg_length. split; [auto | lia].
@@ -322,4 +325,21 @@ Proof.
     destruct (K HI' Hd Hsub Hin' Ho) as [K1|(K1 & K2 & K3)]; [left; exact K1|].
     right. apply recycle_verdict in K2. destruct K2 as (K2 & K4). auto.
   - inversion He; subst. left. auto.
+Qed.
+
+(* ------------------------------------------------------------------ Transaction wrappers *)
+(* prepare_cached / prepare_typed_cached through client.transaction(), a nested transaction, a
+   savepoint or build_transaction().start() work on the client's own cache: the result, the cache
+   and every client of the pool are exactly what the direct call gives; only the transaction's own
+   START TRANSACTION / SAVEPOINT / RELEASE / COMMIT appear on the wire around it *)
+Lemma via_is_direct c s w x k s' r :
+  step c s (LPrepVia w x k) = Some (s', r) ->
+  exists s0, step c s (LPrep x k) = Some (s0, r)
+    /\ conns s' = conns s0 /\ out s' = out s0 /\ idle s' = idle s0 /\ taken s' = taken s0
+    /\ registry s' = registry s0.
+Proof.
+  cbn [step]. destruct (usable s x); cbn [andb]; [|discriminate].
+  destruct (via_ready (getc s x)); [|discriminate].
+  destruct (prepare1 (getc s x) k) as [[cn ms] res]. intros H. inversion H; subst.
+  eexists. split; [reflexivity|]. unfold logm. sp. repeat split; reflexivity.
 Qed.
